@@ -330,11 +330,13 @@ def gen_case(rng, mode="valid"):
         case = dict(ops=ops, tree=tree, points=[], mode=mode)
         if not py_wf(case):
             continue
-        if mode != "d22" and not py_guard_names(case):
+        if mode != "d22" and not py_guard_names(case) and not fixed("D22"):
             continue
         if mode == "d22" and py_guard_names(case):
             continue
-        if (mode == "lab") == py_guard_labels(case):
+        if mode == "lab" and py_guard_labels(case):
+            continue
+        if mode != "lab" and not py_guard_labels(case) and not fixed("D22b"):
             continue
         if (mode == "d3") == py_guard_d3(case):
             continue
@@ -681,11 +683,17 @@ PROPOSED = {   # findings this check proposes for known_findings.json (used for 
                               "layout, or NameError).  Narrowed after fix D80: inputs with < 2 sources are no longer affected"),
 }
 
-def fixed_D3():
-    """the model switch of Edges.v (false: the code as it is; true: proposed_fix_C01_D3.diff applied)"""
+import functools
+
+@functools.lru_cache(maxsize=None)
+def fixed(name):
+    """a model switch of Edges.v (`Definition fixed_<name> : bool := true|false.`)"""
     import re
     txt = open(os.path.join(COQ, "theories", "Edges.v")).read()
-    return re.search(r"Definition fixed_D3 : bool := (true|false)\.", txt).group(1) == "true"
+    return re.search(r"Definition fixed_%s : bool := (true|false)\." % name, txt).group(1) == "true"
+
+def fixed_D3():
+    return fixed("D3")
 
 def failed_out(o):
     return (not isinstance(o, dict)) or "outs" not in o or any("err" in x for x in o["outs"])
@@ -858,7 +866,7 @@ def check(ctx):
                         "states x 2 parameter assignments; a network is non-trivial when it has >= 2 nodes, >= 1 edge and some input variable "
                         "with fan-in >= 2 or a same-node producer; distinct = distinct canonical JSON of (operators, circuit tree)",
                    samples=[sample],
-                   extra=dict(input_distribution=hist, model_switch_fixed_D3=fixed_D3(), impl_vs_model_mismatches=len(badI), impl_vs_spec_mismatches=len(badS),
+                   extra=dict(input_distribution=hist, model_switches=dict(fixed_D3=fixed("D3"), fixed_D22=fixed("D22"), fixed_D22b=fixed("D22b")), impl_vs_model_mismatches=len(badI), impl_vs_spec_mismatches=len(badS),
                               raised=len(crashed), outside_guards={g: len(cmp_[k]) for k, g in GUARDS.items()}, guard_d3_false=len(cmp_["g_d3"]),
                               attributed_to_proposed_findings={g: len(v) for g, v in pending.items()},
                               code_better_than_model_outside_guards=len(drift_out),
